@@ -2,6 +2,7 @@ package main
 
 import (
 	"fmt"
+	"sort"
 	"strings"
 
 	"golang.org/x/tools/go/ssa"
@@ -54,4 +55,22 @@ func dumpDescribe(c *Ctx, spec string) {
 			}
 		})
 	}
+}
+
+// dumpLexTable prints the folded rune -> token table (developer aid).
+func dumpLexTable(c *Ctx) {
+	lt, err := c.lexerTables()
+	if err != nil {
+		fmt.Println("error:", err)
+		return
+	}
+	var rs []int
+	for r := range lt.runeToken {
+		rs = append(rs, int(r))
+	}
+	sort.Ints(rs)
+	for _, r := range rs {
+		fmt.Printf("%q -> %s\n", rune(r), lt.runeToken[rune(r)])
+	}
+	fmt.Printf("symbol terminators %q, metadata terminators %q\n", lt.symbolExcl, lt.metaExcl)
 }
